@@ -303,6 +303,14 @@ def explore_correct(case):
                     u = np.cross(gb, e)
                     if np.linalg.norm(u) > 1e-6:
                         ys.append(("perpendicular%d" % k, G0 * u / np.linalg.norm(u)))
+                        if wname == "small":
+                            # the whole circle of directions at exactly 90 degrees from the predicted gravity (the sine of the innovation
+                            # angle is 1 up to rounding, on either side)
+                            u0 = u / np.linalg.norm(u)
+                            u1 = np.cross(gb / np.linalg.norm(gb), u0)
+                            for j in range(1, 24):
+                                ang = 2 * math.pi * j / 24
+                                ys.append(("perpendicular_circle", G0 * (math.cos(ang) * u0 + math.sin(ang) * u1)))
                 ys.append(("opposite", -gb))
                 for tag, y in ys:
                     res.count("evaluations")
